@@ -24,7 +24,8 @@ PROPERTY = "C15"
 LEVEL = "fault_enumeration"
 RULE = (
     "A case = (protocol version, table size 0..4, initial NCP table content with each group at most "
-    "once, groups the coordinator endpoint is a member of at start-up, operation string, answer to "
+    "once, groups the coordinator's endpoints are members of at start-up - one endpoint, or several with a "
+    "group listed on more than one of them -, operation string, answer to "
     "each table write).  All operation strings up to the tier's length over 3 groups x {subscribe, "
     "unsubscribe} are enumerated; for each step that causes a table write the three answers {success, "
     "rejection, timeout} are branched.  Non-trivial = at least one table write happened in the "
@@ -44,7 +45,7 @@ EXHAUSTIVE = {
 }
 REACH = {t: ["sub_rejected", "sub_timeout", "sub_ok", "unsub_rejected", "unsub_timeout", "unsub_ok",
              "full_table", "size_0", "already_subscribed", "startup_subscribed", "probe_free_count_checked",
-             "versions_3"] for t in ("quick", "thorough")}
+             "versions_3", "startup_several_endpoints", "startup_group_on_two_endpoints"] for t in ("quick", "thorough")}
 SHARD_TIMEOUT = {"quick": 900, "thorough": 3600}
 
 G = [0x1001, 0x1002, 0x1003]
@@ -121,7 +122,7 @@ def run_shard(desc) -> Acc:
             booleans 'step caused a table write'."""
             table = ncpmodel.MulticastTable(ents)
             ncpmodel.install_multicast(ncp, table)
-            case = {"version": V, "table": [list(e) for e in ents], "startup_groups": list(startup_groups),
+            case = {"version": V, "table": [list(e) for e in ents], "startup_groups": [list(x) if isinstance(x, (list, tuple)) else x for x in startup_groups],
                     "ops": [list(s) for s in seq]}
             hist = []
             bad = []
@@ -130,8 +131,17 @@ def run_shard(desc) -> Acc:
                 bad.append((key, msg))
 
             mc = mcast.Multicast(ez)
-            ep = types.SimpleNamespace(member_of={g: None for g in startup_groups})
-            coord = types.SimpleNamespace(endpoints={0: types.SimpleNamespace(member_of={}), 1: ep})
+            # startup_groups: the groups of one coordinator endpoint, or a list of such lists (several
+            # endpoints, a group may be listed on more than one of them)
+            eps = startup_groups if startup_groups and isinstance(startup_groups[0], (list, tuple)) else [startup_groups]
+            startup_groups = sorted({g for e_ in eps for g in e_})
+            coord = types.SimpleNamespace(endpoints={0: types.SimpleNamespace(member_of={G[2]: None})})
+            for k_, e_ in enumerate(eps):
+                coord.endpoints[k_ + 1] = types.SimpleNamespace(member_of={g: None for g in e_})
+            if len(eps) > 1:
+                acc.hit("startup_several_endpoints")
+                if sum(len(e_) for e_ in eps) > len(startup_groups):
+                    acc.hit("startup_group_on_two_endpoints")
             try:
                 await mc.startup(coord)
             except BaseException as ex:  # noqa: BLE001
@@ -267,7 +277,7 @@ def run_shard(desc) -> Acc:
             acc.case()
             eff = tuple((o, g, a if w else None) for (o, g, a), w in zip(seq, wrote))
             if any(wrote):
-                acc.nontrivial((V, n, tuple(map(tuple, ents)), tuple(startup_groups), eff))
+                acc.nontrivial((V, n, tuple(map(tuple, ents)), repr(case["startup_groups"]), eff))
             if n == 0:
                 acc.hit("size_0")
             if len(acc.samples) < 2 and len(seq) == depth and any(a != "ok" for (_, _, a), w in zip(seq, wrote) if w):
@@ -300,6 +310,13 @@ def run_shard(desc) -> Acc:
                 await run(ents, [G[0]], [])
                 if depth >= 2 and n <= 2:
                     await explore(ents, [G[0]], [], depth - 1)
+                # several coordinator endpoints, groups listed on more than one of them
+                for spec in ([[G[0]], [G[0]]], [[G[0], G[1]], [G[1]]], [[G[0]], [G[1]], [G[0], G[2]]]):
+                    await run(ents, spec, [])
+                    for op1 in OPS:
+                        await run(ents, spec, [op1 + ("ok",)])
+                if depth >= 2 and n == 2:
+                    await explore(ents, [[G[0]], [G[0]]], [], depth - 1)
 
     try:
         vloop.run(main)
